@@ -274,6 +274,11 @@ type BCfg struct {
 	HeapLimit   uint64
 	SysLimit    uint64
 	RealJanitor bool
+	// Via = "failover": the backend is not constructed directly but as the DEFAULT backend of a Failover / FailoverOf that is
+	// given this configuration as BackendConfig (and an arbitrary failover configuration of its own, MaxStaleness = ViaMS);
+	// it must behave as the backend this configuration describes. (sharded and shardedOf only)
+	Via   string
+	ViaMS time.Duration
 }
 
 func (c BCfg) apply(cfg *cache.Config) {
@@ -294,6 +299,26 @@ func (c BCfg) apply(cfg *cache.Config) {
 func NewBackend(c BCfg, keys *KeyTable) Backend {
 	if c.JobInterval == 0 {
 		c.JobInterval = 24 * time.Hour // the janitor never fires on its own; cycles are driven explicitly
+	}
+	if c.Via == "failover" {
+		switch c.Kind {
+		case "sharded":
+			f := cache.NewFailover(func(fc *cache.FailoverConfig) {
+				c.apply(&fc.BackendConfig)
+				fc.Name, fc.Stats = c.Name, c.Stats // (documented: the default backend takes name, logger and stats of the failover)
+				fc.MaxStaleness = c.ViaMS
+				fc.UpdateTTL, fc.FailedUpdateTTL = 3*time.Second, 7*time.Second
+			})
+			return shardedB{f.VerifBackend().(*cache.ShardedMap)}
+		case "shardedOf":
+			f := cache.NewFailoverOf[int](func(fc *cache.FailoverConfigOf[int]) {
+				c.apply(&fc.BackendConfig)
+				fc.Name, fc.Stats = c.Name, c.Stats
+				fc.MaxStaleness = c.ViaMS
+				fc.UpdateTTL, fc.FailedUpdateTTL = 3*time.Second, 7*time.Second
+			})
+			return shardedOfB{f.VerifBackend().(*cache.ShardedMapOf[int])}
+		}
 	}
 	switch c.Kind {
 	case "sharded":
